@@ -128,14 +128,14 @@ func loopFormOf(h *ssa.BasicBlock) *loopForm {
 // fullRange checks that loop h in fn visits the indices first..len(s)-1 of the
 // slice recognised by isSlice (the operand of len()), and that every other
 // exit of the loop reaches only failure returns (isSuccess(ret) false).
-func (c *Ctx) fullRange(fn *ssa.Function, h *ssa.BasicBlock, what string, isSlice func(ssa.Value) bool, first int64, isSuccess func(*ssa.Return) bool) bool {
-	return c.fullRangeOff(fn, h, what, isSlice, -first, 0, isSuccess)
+func (c *Ctx) fullRange(fn *ssa.Function, h *ssa.BasicBlock, what string, isSlice func(ssa.Value) bool, first int64, isSuccess func(*ssa.Return) bool, okExit ...func(ir.Edge) bool) bool {
+	return c.fullRangeOff(fn, h, what, isSlice, -first, 0, isSuccess, okExit...)
 }
 
 // fullRangeOff: the loop body uses the elements at counter+lo .. counter+hi;
 // together the iterations must cover element 0 (first counter value + lo == 0)
 // up to element len-1 (last counter value + hi == len-1).
-func (c *Ctx) fullRangeOff(fn *ssa.Function, h *ssa.BasicBlock, what string, isSlice func(ssa.Value) bool, lo, hi int64, isSuccess func(*ssa.Return) bool) bool {
+func (c *Ctx) fullRangeOff(fn *ssa.Function, h *ssa.BasicBlock, what string, isSlice func(ssa.Value) bool, lo, hi int64, isSuccess func(*ssa.Return) bool, okExit ...func(ir.Edge) bool) bool {
 	construct := fmt.Sprintf("%s | %s covers every element (0..len-1)", c.nm(fn), what)
 	pos := c.P.Pos(fn.Pos())
 	if h == nil {
@@ -216,6 +216,15 @@ func (c *Ctx) fullRangeOff(fn *ssa.Function, h *ssa.BasicBlock, what string, isS
 	// other exits: failure only
 	for _, e := range ir.LoopExits(h) {
 		if e == lf.exit {
+			continue
+		}
+		tabled := false
+		for _, ok := range okExit {
+			if ok(e) {
+				tabled = true
+			}
+		}
+		if tabled {
 			continue
 		}
 		ir.WalkEdge(e, nil, func(in ssa.Instruction) bool {
